@@ -20,7 +20,7 @@ SPEC = {
     "technique": "Lean 4 inductive invariant (22 clauses) over an action-labelled transition system; skeleton/CAS/enum facts; trace validation of real plz runs",
     "trusted": [
         "go/ast extractor harness/extract/c04 (enum order, IsBuilt, atomic load/store/CAS, CAS pairs, scheduling skeletons with role-renamed identifiers)",
-        "correspondence harness/cmd/c04 vs Driver/C04.lean: real plz builds of generated genrule DAGs at -n 1,2,4,16 with flock-protected start/end logs; the Lean driver replays each observed log through the model as an acceptor",
+        "correspondence harness/cmd/c04 vs Driver/C04.lean: real plz builds of generated genrule DAGs at -n 1,2,4,16 with flock-protected start/end logs, plus `plz query deps` runs (NeedBuild off) on packages that subinclude targets, where a non-building queuer of a target is still alive when a subinclude forces the target's build; the Lean driver replays each observed log through the model as an acceptor",
         "modelled, not verified: Model/Sched.lean transcribes state.go:1140-1224, build_target.go:839-845,1217-1233, plz.go:28-130, build_step.go:62-88",
         "idealisations: atomics and channel close are atomic; real interleavings are sampled, not enumerated; the two-CAS sequence to Active is one step",
     ],
@@ -39,6 +39,12 @@ H harmless: dep->declared, err->qerr, an added log.Debug line in queueTargetAsyn
      9/9 obligations, 55 cases, no oracle failure (892 s).  A first attempt at load average >200 had shown two
      environment-induced real-run failures (a 120 s timeout, a plz error); since then environment-sensitive failures are
      confirmed by an isolated re-run before they are reported (harness/cmd/c04 confirm()).
+S4 round-2 seed: `if target.SyncUpdateState(Active, Pending)` without `building &&` at the end of queueTargetAsync (a queuer that does not
+     build and therefore has not waited for the dependencies sends the build task) -> with `plz build` every queuer builds, so it shows
+     only with NeedBuild off: red on the binary built from the seeded tree with the query-subinclude shape, concrete input
+     `run deps=0:1;1:;2:;3: pk=0,1,2,3 roots=0,2 n=4 ... q=1 sub=1:3,2:0`: exit-nonzero-without-failure (target 0 is handed to a worker
+     before its dependency 1 is built: 'cannot calculate hash for plz-out/gen/p1/t1.out') and model/implementation disagreement
+     (exit-mismatch model=0 real=nz); clean binary: S3,E3,S1,E1,S0,E0 rc=0. Also C04_facts_ok (sk_queueTargetAsync).
 S2 seeded by the coordinator: queueTargetAsync leaves its loop when `!called || len(deps) >= len(DeclaredDependencies())`
      (wrong under require/provide + a post-build add_dep) -> red with a concrete replay: C04_facts_ok broken AND
      started-before-dependency-finished on the real binary (9-11 oracle failures per quick run: corpus cases and the
